@@ -89,6 +89,10 @@ let dispatch (fn : string) : jv -> jv = match fn with
   | "gss_unframe" -> gss_unframe_j
   | "krb5_token" -> krb5_token_j
   | "krb5_untoken" -> krb5_untoken_j
+  | "pac_process" -> pac_process_j
+  | "pac_unmarshal" -> pac_unmarshal_j
+  | "sig_unmarshal" -> sig_unmarshal_j
+  | "client_info" -> client_info_j
   | "c16_parse" -> c16_parse_j
   | "c16_resolve" -> c16_resolve_j
   | "c16_bool" -> c16_bool_j
